@@ -6,8 +6,8 @@ CONSTANTS
   StrayOffFalling = "never"
   Notes = {60}
   Vels = {0, 100}
-  CcMsgs <- Cc_small
-  PbMsgs <- Pb_two
+  CcMsgs <- Cc_ctl
+  PbMsgs <- Pb_some
   Channel = 3
   Foreign = 5
   Alphabet = {}
